@@ -245,6 +245,12 @@ def _refusal(c):
     except Exception as e:
         return {'raised': type(e).__name__}
 
+def _kept(out, **pairs):
+    """the caller's coordinate / mask arrays must come back as they were handed in (name=(array, private copy))"""
+    for name, (a, snap) in pairs.items():
+        if not np.array_equal(a, snap, equal_nan=True): out.setdefault('touched', name)
+    return out
+
 def _impl(c):
     if c['kind'] == 'lean_thorough': return _lean_thorough(c)
     if c['kind'] == 'refusal': return _refusal(c)
@@ -258,17 +264,20 @@ def _impl(c):
             r = [Z.zernike_index(j) for j in js]
             return {'m': [int(x[0]) for x in r], 'n': [int(x[1]) for x in r]}
         if k == 'radial':
-            rho = np.arange(c['den'] + 1) / c['den']
+            rho = np.arange(c['den'] + 1) / c['den']; rho_in = rho.copy()
             v = Z.R(c['m'], c['n'], rho)
-            v2 = Z.R(-c['m'], c['n'], rho)
-            if np.isscalar(v): return {'scalar': float(v), 'neg_same': bool(np.all(np.asarray(v2) == v))}
-            return {'values': [float(x) for x in v], 'neg_same': bool(np.array_equal(v, v2))}
+            t = _kept({}, rho=(rho, rho_in))
+            v2 = Z.R(-c['m'], c['n'], rho_in.copy())
+            if np.isscalar(v): return dict(t, scalar=float(v), neg_same=bool(np.all(np.asarray(v2) == v)))
+            return dict(t, values=[float(x) for x in v], neg_same=bool(np.array_equal(v, v2)))
         if k == 'zern':
             sh = tuple(c['shape'])
             mask = np.array(c['mask']).reshape(sh); rho = np.array(c['rho']).reshape(sh); th = np.array(c['theta']).reshape(sh)
+            keep = {'mask': (mask, mask.copy()), 'rho': (rho, rho.copy()), 'theta': (th, th.copy())}
             z = lentil.zernike(mask, c['j'], c['normalize'], rho=rho, theta=th)
-            zb = lentil.zernike(mask != 0, c['j'], c['normalize'], rho=rho, theta=th)
-            return {'values': [float(x) for x in np.asarray(z, dtype=float).ravel()], 'shape': list(np.shape(z)),
+            t = _kept({}, **keep)
+            zb = lentil.zernike(mask != 0, c['j'], c['normalize'], rho=keep['rho'][1].copy(), theta=keep['theta'][1].copy())
+            return {**t, 'values': [float(x) for x in np.asarray(z, dtype=float).ravel()], 'shape': list(np.shape(z)),
                     'support_only': bool(np.array_equal(np.asarray(z, dtype=float), np.asarray(zb, dtype=float), equal_nan=True))}
         if k == 'gram':
             n1, n2 = noll_ref(c['j'])[0], noll_ref(c['j2'])[0]
@@ -390,6 +399,9 @@ def oracle(c, io):
     if k == 'lean_thorough':
         return None if io.get('ok') else f"thorough-tier theorems {c['theorems']} (radial Gram table and orthonormality for n <= 40) no longer check: {io.get('why')}"
     if 'exc' in io: return f"{k}: implementation raised {io['exc']}: {io.get('msg')}"
+    if io.get('touched'):
+        what = f"R({c['m']},{c['n']}, rho)" if k == 'radial' else f"zernike(mask, {c['j']}, rho=, theta=)"
+        return f"{what} overwrote the caller's `{io['touched']}` array in place — a second evaluation on the same coordinates sees other values"
     if k in ('index', 'index_list'):
         js = list(range(c['j0'], c['j1'] + 1)) if k == 'index' else c['js']
         seen = set()
